@@ -67,6 +67,8 @@ type Knobs struct {
 	PCycleKeep  int // keep a constructor that closes a cycle in the predicted strict graph
 
 	PreferAvailable bool // "visible" means transitively available in the predicted model
+	TwoPhase        bool // registrations first, invocations later
+	PSoftSibling    int  // a soft group leaf gets a sibling whose constructor feeds that group (C11)
 	PReencode       int  // C15: probability that a function gets an alternative equivalent encoding
 	PReenter        int  // C02: probability that a constructor body calls back into the container
 
@@ -211,9 +213,10 @@ func (g *gen) pickLate(n int, label string) int {
 }
 
 type pleaf struct {
-	key  MKey
-	opt  bool
-	soft bool
+	key      MKey
+	opt      bool
+	soft     bool
+	withPrev bool // placed in the same parameter object as the previous leaf
 }
 
 // drawParamLeaves draws n parameter leaves for a function viewing from s.
@@ -255,6 +258,26 @@ func (g *gen) drawParamLeaves(s, n int, pAvail int, allowGroups bool) []pleaf {
 			l.opt = g.pct(g.k.POpt, lbl+"opt")
 		}
 		out = append(out, l)
+		if l.soft && g.pct(g.k.PSoftSibling, lbl+"softsib") {
+			// add, after the soft leaf, a dependency on a constructor that
+			// also feeds this group
+			var sib []MKey
+			for _, a := range g.m.Anc(s) {
+				for _, c := range g.m.Scopes[a].Ctors {
+					if c.SlotFor(l.key) < 0 {
+						continue
+					}
+					for _, k := range c.Keys() {
+						if k.Group == "" {
+							sib = append(sib, k)
+						}
+					}
+				}
+			}
+			if len(sib) > 0 {
+				out = append(out, pleaf{key: sib[g.pick(len(sib), lbl+"sibk")], withPrev: true})
+			}
+		}
 	}
 	return out
 }
@@ -270,11 +293,18 @@ func (l pleaf) needsObj() bool { return l.key.Name != "" || l.opt || l.key.Group
 func (g *gen) encodeParams(leaves []pleaf) []Param {
 	var out []Param
 	var objs [][]Param
+	lastObj := -1
 	for i, l := range leaves {
 		lbl := fmt.Sprintf("enc%d", i)
+		if l.withPrev && lastObj >= 0 {
+			objs[lastObj] = append(objs[lastObj], l.param())
+			continue
+		}
+		lastObj = -1
 		if l.needsObj() || g.pct(g.k.PObjParam, lbl+"obj") {
 			// choose an object (existing or new)
 			oi := g.pick(len(objs)+1, lbl+"which")
+			lastObj = oi
 			if oi == len(objs) {
 				objs = append(objs, nil)
 				out = append(out, Param{IsObj: true, T: fmt.Sprintf("#%d", oi)})
@@ -950,18 +980,36 @@ func GenCase(t *rapid.T, k Knobs) *Case {
 			}
 		}},
 	}
-	total := 0
-	for _, o := range ops {
-		total += o.w
-	}
 	for len(g.c.Ops) < nops {
+		// TwoPhase: registrations dominate the first part of a history and
+		// invocations the rest (deeper, not yet built closures)
+		wInv := k.WInvoke
+		if k.TwoPhase {
+			if len(g.c.Ops)*5 < nops*3 {
+				wInv = (k.WInvoke + 3) / 4
+			} else {
+				wInv = k.WInvoke * 2
+			}
+		}
+		total := 0
+		for i, o := range ops {
+			w := o.w
+			if i == 3 {
+				w = wInv
+			}
+			total += w
+		}
 		r := g.pick(total, "op")
-		for _, o := range ops {
-			if r < o.w {
+		for i, o := range ops {
+			w := o.w
+			if i == 3 {
+				w = wInv
+			}
+			if r < w {
 				o.f()
 				break
 			}
-			r -= o.w
+			r -= w
 		}
 	}
 	return g.c
